@@ -14,3 +14,5 @@ open MosnVerif.Props.C06
 #print axioms heap_peek_min
 #print axioms heap_fix_root
 #print axioms heap_push
+#print axioms heap_scheduler_refines
+#print axioms wrr_lookup_window_bound
